@@ -361,14 +361,26 @@ def _level_uses(run: Run, rule: str, em, fname: str, fi: FuncInfo) -> None:
             if len(arms) == 2 and all(isinstance(s_, ast.Assign) and len(s_.targets) == 1 and isinstance(s_.targets[0], ast.Name) for b in arms for s_ in b) and all(U.units(s_.value) is not None for b in arms for s_ in b):  # type: ignore[attr-defined]
                 continue
             raise AnalysisError(f"{fname}: the nesting level is tested in `{_text(st.test)[:80]}` - a use of `indent` that is neither a callee's level argument nor part of an indentation string; two spaces per level is not decided for this function")
-        if isinstance(st, (ast.Assign, ast.AnnAssign)) and st.value is not None and id(st) not in judged:
+        if isinstance(st, (ast.Assign, ast.AnnAssign)) and st.value is not None and id(st) in judged:
+            continue
+        if isinstance(st, (ast.Assign, ast.AnnAssign)) and st.value is not None and U.units(st.value) is not None:
             judged.add(id(st))
-            u = U.units(st.value)
-            if u is None:
-                raise AnalysisError(f"{fname}: `{_text(st)[:100]}` uses the nesting level in a way this check does not read as an indentation string; two spaces per level is not decided for this function")
-            _judge_pad(run, rule, em, fname, st, u)
-        elif not isinstance(st, (ast.Assign, ast.AnnAssign)):
-            raise AnalysisError(f"{fname}: `{_text(st)[:100]}` uses the nesting level outside an indentation string or a callee's level argument; not decided")
+            _judge_pad(run, rule, em, fname, st, U.units(st.value))
+            continue
+        # the level used inside a larger expression (an f-string field, an argument of append): the largest enclosing
+        # sub-expression that is a run of spaces is the indentation string
+        best = None
+        y: ast.AST = n
+        while not isinstance(y, ast.stmt):
+            if isinstance(y, ast.expr) and U.units(y) is not None:
+                best = y
+            y = parents[id(y)]
+        if best is None:
+            raise AnalysisError(f"{fname}: `{_text(st)[:100]}` uses the nesting level in a way this check does not read as an indentation string or a callee's level argument; two spaces per level is not decided for this function")
+        if id(best) not in judged:
+            judged.add(id(best))
+            _judge_pad(run, rule, em, fname, best, U.units(best))
+
 
 EMIT_FUNCS = {"emit_assignment", "emit_block", "emit_section", "emit_comment", "emit_value", "_emit_multiline_list", "_emit_leading_comments"}
 
